@@ -22,6 +22,11 @@ mod data_structures;
 pub use data_structures::*;
 
 mod combinations;
+
+#[cfg(feature = "verif-hooks")]
+pub(crate) fn verif_hooks_combinations(original: Vec<usize>, len: usize) -> Vec<Vec<usize>> {
+    Combinations::new(original, len).collect()
+}
 use combinations::*;
 
 /// Multivariate polynomial commitment based on the construction in [[PST13]][pst]
